@@ -1,30 +1,64 @@
-import threading, time
-from mpservice.mpserver import Server, ThreadServlet, Worker
+"""C06 replay: 16 callers race for the slots of a server with capacity 3 while a sampler records the backlog; rejected
+requests must leave no trace; an idle server has backlog 0."""
+import threading, time, sys, faulthandler
+from mpservice.mpserver import Server, ThreadServlet, Worker, ServerBacklogFull
+faulthandler.dump_traceback_later(100, exit=True)
+
 
 class W(Worker):
     def call(self, x):
-        time.sleep(0.02)
+        time.sleep(0.01)
         return x
 
+
 def main():
-    server = Server(ThreadServlet(W, num_threads=1), capacity=3)
+    cap = 3
+    server = Server(ThreadServlet(W, num_threads=1), capacity=cap)
     maxbl = [0]
-    stop = False
+    stop = [False]
+
     def sampler():
-        while not stop:
+        while not stop[0]:
             maxbl[0] = max(maxbl[0], server.backlog)
+    rejected = [0]
     with server:
-        ts = threading.Thread(target=sampler); ts.start()
+        ts = threading.Thread(target=sampler)
+        ts.start()
+
         def caller(i):
-            for k in range(10):
+            for k in range(12):
                 try:
-                    server.call((i,k), timeout=30, backpressure=False)
-                except Exception as e:
-                    print('err', repr(e))
+                    assert server.call((i, k), timeout=30, backpressure=(i % 4 == 0)) == (i, k)
+                except ServerBacklogFull:
+                    rejected[0] += 1
         th = [threading.Thread(target=caller, args=(i,)) for i in range(16)]
-        for t in th: t.start()
-        for t in th: t.join()
-        stop = True
+        for t in th:
+            t.start()
+        for t in th:
+            t.join()
+        # timed-out / abandoned requests give their slots back too
+        for k in range(5):
+            try:
+                server.call(k, timeout=0.001)
+            except Exception:
+                pass
+        time.sleep(0.5)
+        stop[0] = True
         ts.join()
-        print('capacity 3 max backlog observed', maxbl[0], 'final backlog', server.backlog)
+        print('capacity', cap, 'max backlog observed', maxbl[0], 'rejected', rejected[0], 'final backlog', server.backlog)
+        assert maxbl[0] <= cap, 'backlog exceeded capacity'
+        assert server.backlog == 0, 'slots leaked'
+        t0 = time.perf_counter()
+        # back-pressure: a request arriving at a full server is rejected at once
+        futs = [server._enqueue(i, 30, True) for i in range(cap)]
+        try:
+            server._enqueue('x', 30, True)
+            raise SystemExit('no rejection')
+        except ServerBacklogFull:
+            pass
+        for f in futs:
+            f.result(10)
+
+
 main()
+print('OK')
